@@ -3,7 +3,7 @@
 //!   mwdepth <direction> <operation> <depth> <main|2m>
 //!
 //! direction: car cdr vector quote closure continuation nontail nested
-//! operation: read quote-eval build gc equal write drop
+//! operation: read quote-eval build gc equal write drop   (+ probe-display, outside the grid)
 //!
 //! The process prints `STAGE <name>` (stdout and stderr) before every step and
 //! `DONE <summary>` at the end, then exits 0 WITHOUT running destructors (so that only the
@@ -17,10 +17,16 @@ use marwood::vm::Vm;
 use std::io::Write;
 
 fn stage(name: &str) {
+    // maxima restart at every stage, so that the depth trace of a stage names the pass that
+    // recurses in THAT stage
+    vd::reset();
     println!("STAGE {}", name);
     std::io::stdout().flush().unwrap();
     eprintln!("STAGE {}", name);
 }
+
+/// heap chunk (cells) of the scenarios that must not collect while building
+const BIG_HEAP: usize = 1 << 21;
 
 fn sym(s: &str) -> Cell {
     Cell::new_symbol(s)
@@ -199,7 +205,9 @@ fn scenario(direction: &str, op: &str, n: usize) -> String {
             s
         }
         "equal" => {
-            let mut vm = Vm::new();
+            // a heap large enough that no collection runs while the structures are built:
+            // the operation under observation is equal?, not the marker
+            let mut vm = Vm::verif_new(BIG_HEAP);
             stage("build");
             let r = run_text(&mut vm, &(program(direction, n, "v") + " " + &program(direction, n, "w")));
             stage("equal");
@@ -212,7 +220,7 @@ fn scenario(direction: &str, op: &str, n: usize) -> String {
             s
         }
         "write" => {
-            let mut vm = Vm::new();
+            let mut vm = Vm::verif_new(BIG_HEAP);
             stage("build");
             let r = run_text(&mut vm, &program(direction, n, "v"));
             stage("convert");
@@ -234,7 +242,7 @@ fn scenario(direction: &str, op: &str, n: usize) -> String {
                     "drop datum".into()
                 }
                 None => {
-                    let mut vm = Vm::new();
+                    let mut vm = Vm::verif_new(BIG_HEAP);
                     stage("build");
                     let r = run_text(&mut vm, &program(direction, n, "v"));
                     stage("drop");
@@ -242,6 +250,15 @@ fn scenario(direction: &str, op: &str, n: usize) -> String {
                     format!("drop vm {:?}", r)
                 }
             }
+        }
+        // probe outside the property's grid: the printer alone, on a datum built without
+        // recursion (in the grid `write` the conversion get_as_cell recurses first)
+        "probe-display" => {
+            let d = datum(direction, n).expect("data direction");
+            stage("display");
+            let s = format!("{:#}", d).len();
+            std::mem::forget(d);
+            format!("probe-display len={}", s)
         }
         _ => panic!("bad operation"),
     }
